@@ -167,6 +167,10 @@ func init() {
 		fr.w.budget = fr.w.constIntArg(a[0], "budget")
 		return nil
 	}
+	m[vhPath+"DecisionBudget"] = func(fr *frame, a []Value) Value {
+		fr.w.maxDec = fr.w.constIntArg(a[0], "decision budget")
+		return nil
+	}
 }
 
 // assertOb discharges one obligation: pc ⇒ cond (outside the known-finding class, if any).
